@@ -79,3 +79,9 @@ Example C01_nonvacuous :
   (length (ne_shortcuts e), length (ne_domains e), length (ne_seq e)) = (1, 1, 1) /\
   map nr_text (match_all djb2 ex_psl ex_retr e q) = [$"||example.org/banner"; $"ad$domain=example.org"; $"ads$script"].
 Proof. vm_compute. split; reflexivity. Qed.
+
+(* a rule is reported once per index it is filed under, whatever the URL repeats (a name such as "example.com.example.com"
+   holds every lookup window twice): the indexes of the shortcut-table answer are pairwise distinct *)
+Theorem C01_each_index_once : forall hash psl retr e q, NoDup (map fst (match_shortcuts hash psl retr e q)).
+Proof. exact match_shortcuts_nodup. Qed.
+Print Assumptions C01_each_index_once.
